@@ -31,14 +31,21 @@ ASSUMPTIONS = ["SQL validity: exposed relation names of one FROM scope are pairw
                "sqlfluff yields the same tree shape for every identifier body over the alphabet (validated per replayed witness)"]
 
 LOCAL = ("a", "d", "c")
+BUDGET = {"quick": 5, "thorough": 7}   # free names per harness instance (local names first, then a seeded share of the rest)
 
 
 class RenameOb(StmtOb):
     mode = "rename"
 
-    def __init__(self, key, st, dialect="ansi", mode="rename", length=2, lengths=None):
+    def __init__(self, key, st, dialect="ansi", mode="rename", length=2, lengths=None, budget=None, seed=0):
         super().__init__(key, st, dialect)
         self.mode, self.length, self.lengths = mode, length, lengths
+        from checks.tpl import choose_free
+
+        from checks.tpl import reentrant_slots
+
+        cand = [x for x in self.slots if x not in reentrant_slots(st)]
+        self.free = choose_free(cand, self.free_kinds, budget, LOCAL, "c08/%s/%s" % (seed, key))
         self.key = "%s/%s/len%s@%s" % (mode, key, length if not lengths else "mix", dialect)
         if mode == "flip_as":
             self.st2 = variant(st, "flip_as")
@@ -57,7 +64,7 @@ class RenameOb(StmtOb):
         lens = None
         if self.lengths:
             lens = {s: self.lengths[i % len(self.lengths)] for i, s in enumerate(self.slots)}
-        return make_names(self.slots, self.free_kinds, self.length, lengths=lens, prefix=prefix)
+        return make_names(self.slots, self.free_kinds, self.length, lengths=lens, prefix=prefix, free_slots=self.free)
 
     def resolver2(self, names):
         if self.mode == "flip_as":
@@ -69,7 +76,19 @@ class RenameOb(StmtOb):
         validity_assumptions(self.st, self.val(names))
         d1 = dump_runner(self.script.runner(names))
         d2 = dump_runner(self.script2.runner(resolve=self.resolver2(names)))
-        return self.verdict(names, d1, d2)
+        ok = self.compare(d1, d2)
+        finding = None
+        if not ok and self.mode == "rename":
+            from checks import gen as G
+            from checks.tpl import cross_scope_alias_region
+            from lx.lifted import set_eq
+
+            o = G.Oracle(names)
+            # recorded finding: only column pairs are wrong (tables are right), inside the cross-scope region
+            if all(set_eq(getattr(d1, k), getattr(d2, k)) for k in ("sources", "targets", "intermediates")) \
+                    and cross_scope_alias_region(self.st, self.val(names), o.tid):
+                finding = "C08-alias-equals-name-used-in-other-scope"
+        return self.verdict(names, d1, d2, ok=ok, finding=finding)
 
     def concretise(self, verdict, model):
         out = super().concretise(verdict, model)
@@ -104,27 +123,28 @@ def obligations(tier, seed):
     for key, st in tpl:
         if st.kind in ("drop", "delete", "truncate", "drop_view", "create", "insert_values"):
             continue
-        ob = RenameOb(key, st, "ansi", "rename")
+        ob = RenameOb(key, st, "ansi", "rename", budget=BUDGET[tier], seed=seed)
         if not ob.has_local:
             continue
         obs.append(ob)
     if tier == "quick":
         # every FROM shape stays; of the other families a seeded half
-        keep = [o for o in obs if "/plain" in o.key or "merge" in o.key or "update" in o.key]
+        keep = [o for o in obs if ("/plain" in o.key and "/insert/" in o.key) or "merge" in o.key or "update" in o.key]
+        obs = [o for o in obs if "/plain" not in o.key or o in keep]   # the ctas/view/bare twins of a FROM shape: thorough
         rest = [o for o in obs if o not in keep]
         obs = keep + rnd.sample(rest, len(rest) // 2)
-    flips = [RenameOb(k, st, "ansi", "flip_as") for k, st in tpl if "/plain" in k and k.startswith("insert/")]
+    flips = [RenameOb(k, st, "ansi", "flip_as", budget=BUDGET[tier], seed=seed) for k, st in tpl if "/plain" in k and k.startswith("insert/")]
     obs += [o for o in flips if o.has_local]
     if tier == "thorough":
         for key, st in tpl:
             if "/plain" in key and key.startswith(("insert/", "ctas/")):
-                o3 = RenameOb(key, st, "ansi", "rename", length=3)
-                om = RenameOb(key, st, "ansi", "rename", lengths=[1, 3, 2])
+                o3 = RenameOb(key, st, "ansi", "rename", length=3, budget=5, seed=seed)
+                om = RenameOb(key, st, "ansi", "rename", lengths=[1, 3, 2], budget=5, seed=seed)
                 obs += [o for o in (o3, om) if o.has_local]
         for d in ("sparksql", "postgres", "tsql", "bigquery", "snowflake"):
             for key, st in tpl:
                 if key.startswith("insert/") and ("/plain" in key or "/cte" in key):
-                    o = RenameOb(key, st, d, "rename")
+                    o = RenameOb(key, st, d, "rename", budget=5, seed=seed)
                     if o.has_local:
                         obs.append(o)
     return obs
